@@ -467,4 +467,326 @@ example :
       = [['c', 't', 'x'], ['e', 'r', 'r'], ['a', 'r', 'g', '0'], ['r', 'e', 't', '1'], ['r', 'e', 't', '0'], ['e', 'r', 'r', '0']] := by
   decide
 
+/-! ## (b) method collection and embedded merge -/
+
+/-- the private filter of the own-method loop -/
+def keep (o : Opts) (n : Name) : Bool := o.priv || exported n
+
+abbrev enterU : Unit → Unit → Unit := fun _ _ => ()
+abbrev visitU : Unit → Unit → Unit × Unit := fun _ _ => ((), ())
+
+theorem ifaceNames_def (propagate : Bool) (o : Opts) (t : Ty Unit Unit) :
+    ifaceNames propagate o t = (nti enterU visitU propagate o () t).2.methods.map (·.1) := rfl
+
+theorem visitOwn_names (o : Opts) (own : List (Name × Unit)) :
+    (visitOwn visitU o () own).2.map (·.1) = (own.map (·.1)).filter (keep o) := by
+  induction own with
+  | nil => rfl
+  | cons m ms ih =>
+    by_cases h : (o.priv || exported m.1) = true
+    · simp only [visitOwn, h, if_true, List.map_cons, List.filter_cons, keep]
+      simpa [keep] using ih
+    · have h' : (o.priv || exported m.1) = false := by simpa using h
+      simp only [visitOwn, h', List.map_cons, List.filter_cons, keep, Bool.false_eq_true, ↓reduceIte]
+      simpa [keep] using ih
+
+/-- **options, no IncludeEmbedded.** The interface has exactly the type's own methods that pass the
+private filter, in declaration order — for every type, whatever it embeds. -/
+theorem without_embedded (propagate : Bool) (o : Opts) (ho : o.embedded = false)
+    (self : Unit) (own : List (Name × Unit)) (emb : List (Ty Unit Unit)) :
+    ifaceNames propagate o (.mk self own emb) = (own.map (·.1)).filter (keep o) := by
+  rw [ifaceNames_def, nti]
+  simp only [ho, Bool.not_false, if_true]
+  exact visitOwn_names o own
+
+/-- **private_filter (own methods).** `IncludePrivate` adds exactly the unexported own methods:
+the interface without it is the exported part of the interface with it. -/
+theorem private_filter_own (propagate : Bool) (self : Unit) (own : List (Name × Unit))
+    (emb : List (Ty Unit Unit)) :
+    ifaceNames propagate ⟨false, false⟩ (.mk self own emb) =
+      (ifaceNames propagate ⟨true, false⟩ (.mk self own emb)).filter exported := by
+  rw [without_embedded _ _ rfl, without_embedded _ _ rfl]
+  have h1 : keep ⟨false, false⟩ = exported := by funext n; simp [keep]
+  have h2 : keep ⟨true, false⟩ = fun _ => true := by funext n; simp [keep]
+  rw [h1, h2]; simp
+
+theorem mergeStep_keep {o : Opts} (st : Merge Unit) (m : Name × Unit)
+    (hs : ∀ x ∈ st.toAdd, keep o x.1 = true) (hm : keep o m.1 = true) :
+    ∀ x ∈ (mergeStep st m).toAdd, keep o x.1 = true := by
+  unfold mergeStep
+  split
+  · exact hs
+  · split
+    · intro x hx; exact hs x (List.mem_filter.1 hx).1
+    · intro x hx
+      rcases List.mem_append.1 hx with h | h
+      · exact hs x h
+      · simp at h; subst h; exact hm
+
+theorem ambStep_keep {o : Opts} (st : Merge Unit) (n : Name)
+    (hs : ∀ x ∈ st.toAdd, keep o x.1 = true) :
+    ∀ x ∈ (ambStep st n).toAdd, keep o x.1 = true := by
+  unfold ambStep
+  split
+  · exact hs
+  · intro x hx; exact hs x (List.mem_filter.1 hx).1
+
+theorem foldl_mergeStep_keep {o : Opts} : ∀ (ms : List (Name × Unit)) (st : Merge Unit),
+    (∀ x ∈ st.toAdd, keep o x.1 = true) → (∀ m ∈ ms, keep o m.1 = true) →
+    ∀ x ∈ (ms.foldl mergeStep st).toAdd, keep o x.1 = true := by
+  intro ms
+  induction ms with
+  | nil => intro st hs _; exact hs
+  | cons m ms ih =>
+    intro st hs hm
+    rw [List.foldl_cons]
+    exact ih _ (mergeStep_keep st m hs (hm m List.mem_cons_self))
+      (fun x hx => hm x (List.mem_cons_of_mem _ hx))
+
+theorem foldl_ambStep_keep {o : Opts} : ∀ (ns : List Name) (st : Merge Unit),
+    (∀ x ∈ st.toAdd, keep o x.1 = true) →
+    ∀ x ∈ (ns.foldl ambStep st).toAdd, keep o x.1 = true := by
+  intro ns
+  induction ns with
+  | nil => intro st hs; exact hs
+  | cons n ns ih => intro st hs; rw [List.foldl_cons]; exact ih _ (ambStep_keep st n hs)
+
+mutual
+/-- **private_filter (all depths).** Whatever is embedded, however deep: every method of the
+interface passes the private filter, so without `IncludePrivate` no unexported method — own or
+promoted — is ever rendered. -/
+theorem nti_keep (propagate : Bool) (o : Opts) : ∀ (t : Ty Unit Unit),
+    ∀ m ∈ (nti enterU visitU propagate o () t).2.methods, keep o m.1 = true
+  | .mk self own emb => by
+    have hown : ∀ m ∈ (visitOwn visitU o () own).2, keep o m.1 = true := by
+      intro m hm
+      have h1 : m.1 ∈ (visitOwn visitU o () own).2.map (·.1) := List.mem_map_of_mem hm
+      rw [visitOwn_names] at h1
+      exact (List.mem_filter.1 h1).2
+    rw [nti]
+    by_cases ho : o.embedded = true
+    · simp only [ho, Bool.not_true, Bool.false_eq_true, ↓reduceIte]
+      intro m hm
+      rcases List.mem_append.1 hm with h | h
+      · exact hown m h
+      · exact ntiEmb_keep propagate o emb _ (by simp) m h
+    · have ho' : o.embedded = false := by simpa using ho
+      simp only [ho', Bool.not_false, if_true]
+      exact hown
+theorem ntiEmb_keep (propagate : Bool) (o : Opts) : ∀ (ts : List (Ty Unit Unit)) (st : Merge Unit),
+    (∀ x ∈ st.toAdd, keep o x.1 = true) →
+    ∀ x ∈ (ntiEmb enterU visitU propagate o () ts st).2.toAdd, keep o x.1 = true
+  | [], st => by intro hs; rw [ntiEmb]; exact hs
+  | t :: ts, st => by
+    intro hs
+    rw [ntiEmb]
+    apply ntiEmb_keep propagate o ts
+    have h1 := foldl_mergeStep_keep (o := o) _ st hs (nti_keep propagate o t)
+    cases propagate
+    · simpa using h1
+    · simpa using foldl_ambStep_keep _ _ h1
+end
+
+/-- every own method that passes the filter is in the interface (parent methods win), at any depth
+of embedding and for both algorithms -/
+theorem own_methods_present (propagate : Bool) (o : Opts) (self : Unit) (own : List (Name × Unit))
+    (emb : List (Ty Unit Unit)) (n : Name) (hn : n ∈ own.map (·.1)) (hk : keep o n = true) :
+    n ∈ ifaceNames propagate o (.mk self own emb) := by
+  have h1 : n ∈ (visitOwn visitU o () own).2.map (·.1) := by
+    rw [visitOwn_names]; exact List.mem_filter.2 ⟨hn, hk⟩
+  rw [ifaceNames_def, nti]
+  by_cases ho : o.embedded = true
+  · simp only [ho, Bool.not_true, Bool.false_eq_true, ↓reduceIte, List.map_append, List.mem_append]
+    exact Or.inl h1
+  · have ho' : o.embedded = false := by simpa using ho
+    simp only [ho', Bool.not_false, if_true]
+    exact h1
+
+/-! ### the merge against the property text
+
+Full statements (NOT proved here; they are what the correspondence run checks on every generated
+struct, and what `legacy_merge_violates` refutes for the pinned commit):
+
+```
+theorem embedded_methods_exact (o : Opts) (ho : o.embedded = true) (t : Ty Unit Unit) (n : Name) :
+    n ∈ ifaceNames true o t ↔ keep o n = true ∧ specHas t n = true
+theorem rendered_methods_promoted (o : Opts) (t : Ty Unit Unit) (n : Name) :
+    n ∈ ifaceNames true o t → GoPromotes t n
+```
+
+Proved below: `embedded_methods_exact_partial` — the direction-free statement on the witness tree
+and on a tree using every branch of the merge (own method shadowing an embedded one, a name under
+two embedded fields, a name ambiguous one level down, a private method), by evaluation.  Proved
+above for all trees: `without_embedded`, `private_filter_own`, `nti_keep`, `own_methods_present`.
+Missing for the full statements: the invariant of the `mergeStep`/`ambStep` folds (toAdd = names
+seen under exactly one embedded field and in that field's interface; amb = the other names seen)
+carried through the mutual induction over the tree. -/
+
+def leaf (ns : List Name) : Ty Unit Unit := .mk () (ns.map (fun n => (n, ()))) []
+def node (ns : List Name) (emb : List (Ty Unit Unit)) : Ty Unit Unit := .mk () (ns.map (fun n => (n, ()))) emb
+
+def nFoo : Name := ['F', 'o', 'o']
+def nBar : Name := ['B', 'a', 'r']
+def nOwn : Name := ['O', 'w', 'n']
+def nPriv : Name := ['p', 'r', 'i', 'v']
+
+/-- `type D struct{}; func (D) Foo()`, same for `E`, `F`; `type A struct{D; E}`; `type B struct{F}`;
+`type C struct{A; B}; func (C) Own()` -/
+def witnessC : Ty Unit Unit :=
+  node [nOwn] [node [] [leaf [nFoo], leaf [nFoo]], node [] [leaf [nFoo]]]
+
+/-- the pinned commit's merge renders `Foo` for `C`, although `C.Foo` is an ambiguous selector in
+Go (three `Foo` at depth 2: `C` has no method `Foo`, so `*C` does not implement the rendered
+interface) and `Foo` is defined under more than one embedded field; the repaired merge drops it -/
+theorem legacy_merge_violates :
+    nFoo ∈ ifaceNames false ⟨true, true⟩ witnessC ∧
+    goPromotes witnessC nFoo = false ∧ specHas witnessC nFoo = false ∧
+    nFoo ∉ ifaceNames true ⟨true, true⟩ witnessC := by
+  decide
+
+/-- a tree using every branch of the merge -/
+def sampleT : Ty Unit Unit :=
+  node [nOwn, nPriv] [
+    node [nFoo, nOwn] [leaf [nBar], leaf [nBar, nPriv]],   -- Bar ambiguous below, Own shadowed
+    node [['B', 'a', 'z']] [leaf [nFoo]],                   -- Foo under two fields, Baz under one
+    leaf [['Q', 'u', 'x'], ['q']]]
+
+theorem embedded_methods_exact_partial :
+    (∀ t ∈ [witnessC, sampleT], ∀ o ∈ [(⟨true, true⟩ : Opts), ⟨false, true⟩],
+      ∀ n ∈ allNames t, (decide (n ∈ ifaceNames true o t) = (keep o n && specHas t n)) ∧
+        (n ∈ ifaceNames true o t → goPromotes t n = true)) ∧
+    ifaceNames true ⟨true, true⟩ sampleT = [nOwn, nPriv, ['B', 'a', 'z'], ['Q', 'u', 'x'], ['q']] := by
+  decide
+
+/-! ## (c) type references and imports
+
+Full statements (NOT proved here):
+
+```
+theorem typeRef_denotes_same (gs) (ih : IH) (t : GoType) (hd : DistinctAliases (extract gs ih t).1) :
+    denote ih.cur (extract gs ih t).1.active (extract gs ih t).2 = some (sem t)
+theorem needed_imports_active (gs) (ih : IH) (t : GoType) :
+    ∀ path ∈ pathsOf t, path ≠ ih.cur → ∃ a, Active (extract gs ih t).1 path a   -- and `a` is the
+    -- qualifier printed at that node
+```
+
+Proved for every handler state: the step both rest on — `addImport` (the import part of
+`addNamed`) returns no qualifier exactly for the current package, otherwise the alias of an entry
+for that very path which is in use afterwards (`addImport_active`), and never loses or re-aliases
+an entry that was active before (`addImport_mono`).  Missing: lifting these two through the mutual
+recursion of `extract`/`extractL`/`extractPs` (monotonicity of `denote` in the import table under
+distinct aliases).  `typeRef_round_trip_partial` evaluates the full statement on a term using every
+constructor, with plain, renamed and not-yet-imported packages. -/
+
+/-- the import table has an in-use entry for `path` under `alias` -/
+def Active (ih : IH) (path alias : Name) : Prop :=
+  ∃ i ∈ ih.imports, i.path = path ∧ i.alias = alias ∧ i.inUse = true
+
+theorem markUsed_mem {p : Name} : ∀ (is : List ImportDesc) (i : ImportDesc), i ∈ is →
+    ∃ j ∈ markUsed p is, j.path = i.path ∧ j.alias = i.alias ∧ (i.inUse = true → j.inUse = true) := by
+  intro is
+  induction is with
+  | nil => intro i h; cases h
+  | cons x xs ih =>
+    intro i h
+    simp only [markUsed]
+    rcases List.mem_cons.1 h with rfl | h
+    · by_cases hp : i.path = p
+      · simp only [hp, if_true]
+        exact ⟨_, List.mem_cons_self, hp.symm ▸ rfl, rfl, fun _ => rfl⟩
+      · simp only [hp, if_false]
+        exact ⟨i, List.mem_cons_self, rfl, rfl, id⟩
+    · by_cases hp : x.path = p
+      · simp only [hp, if_true]
+        exact ⟨i, List.mem_cons_of_mem _ h, rfl, rfl, id⟩
+      · simp only [hp, if_false]
+        obtain ⟨j, hj, h1⟩ := ih i h
+        exact ⟨j, List.mem_cons_of_mem _ hj, h1⟩
+
+theorem markUsed_found {p : Name} : ∀ (is : List ImportDesc) (i : ImportDesc),
+    is.find? (fun i => i.path = p) = some i →
+    ∃ j ∈ markUsed p is, j.path = p ∧ j.alias = i.alias ∧ j.inUse = true := by
+  intro is
+  induction is with
+  | nil => intro i h; simp at h
+  | cons x xs ih =>
+    intro i h
+    simp only [markUsed]
+    by_cases hp : x.path = p
+    · simp only [List.find?_cons, hp, decide_true] at h
+      simp only [hp, if_true]
+      cases h
+      exact ⟨_, List.mem_cons_self, rfl, rfl, rfl⟩
+    · simp only [List.find?_cons, hp, decide_false] at h
+      simp only [hp, if_false]
+      obtain ⟨j, hj, h1⟩ := ih i h
+      exact ⟨j, List.mem_cons_of_mem _ hj, h1⟩
+
+/-- an entry that was active stays active under the same alias -/
+theorem addImport_mono (ih : IH) (q nm : Name) (p a : Name) (h : Active ih p a) :
+    Active (addImport ih q nm).1 p a := by
+  unfold addImport
+  split
+  · exact h
+  · split
+    · obtain ⟨i, hi, h1, h2, h3⟩ := h
+      obtain ⟨j, hj, e1, e2, e3⟩ := markUsed_mem (p := q) ih.imports i hi
+      exact ⟨j, hj, e1.trans h1, e2.trans h2, e3 h3⟩
+    · obtain ⟨i, hi, h1⟩ := h
+      exact ⟨i, List.mem_append_left _ hi, h1⟩
+
+/-- **needed import, one reference.** Referring to a named type of package `q`: no qualifier iff
+`q` is the current package; otherwise the qualifier printed is the alias of an entry for `q` that
+is in use afterwards. -/
+theorem addImport_active (ih : IH) (q nm : Name) :
+    (q = ih.cur → (addImport ih q nm).2 = none ∧ (addImport ih q nm).1 = ih) ∧
+    (q ≠ ih.cur → ∃ a, (addImport ih q nm).2 = some a ∧ Active (addImport ih q nm).1 q a) := by
+  constructor
+  · intro h; simp [addImport, h]
+  · intro h
+    unfold addImport
+    simp only [h, if_false]
+    split
+    · rename_i i hf
+      obtain ⟨j, hj, h1⟩ := markUsed_found ih.imports i hf
+      exact ⟨i.alias, rfl, j, hj, h1⟩
+    · refine ⟨_, rfl, _, List.mem_append_right _ List.mem_cons_self, ?_, rfl, ?_⟩
+      · split <;> rfl
+      · split <;> rfl
+
+/-- the current package never changes -/
+theorem addImport_cur (ih : IH) (q nm : Name) : (addImport ih q nm).1.cur = ih.cur := by
+  unfold addImport
+  split
+  · rfl
+  · split <;> rfl
+
+def DistinctAliases (ih : IH) : Prop := (ih.active.map (·.alias)).Nodup
+
+def sib : Name := ['s', 'i', 'b']
+def pSib : Name := ['m', '/', 's', 'i', 'b']
+def pRen : Name := ['m', '/', 'r', 'e', 'n']
+def pDeep : Name := ['m', '/', 'x', '/', 'd', 'e', 'e', 'p']
+def pCur : Name := ['m', '/', 't', 'g', 't']
+def tT : Name := ['T']
+
+/-- a handler as `calcImports` builds it: `sib` imported plainly, `ren` under the name `rn` -/
+def sampleIH : IH :=
+  calcImports pCur [(pSib, sib), (pRen, ['r', 'e', 'n'])] [(pSib, none), (pRen, some ['r', 'n'])]
+
+/-- `map[sib.T][]*rn.Box[T, deep.T]`, `func(arg0 int, _ [3]deep.T, xs ...sib.T) (T, error)` -/
+def sampleTypes : List GoType :=
+  [.map (.named pSib sib tT []) (.slice (.ptr (.named pRen ['r', 'e', 'n'] ['B', 'o', 'x']
+      [.named pCur ['t', 'g', 't'] tT [], .named pDeep ['d', 'e', 'e', 'p'] tT []]))),
+   .func [(['a', 'r', 'g', '0'], .basic ['i', 'n', 't']), (['_'], .array 3 (.named pDeep ['d', 'e', 'e', 'p'] tT [])),
+          (['x', 's'], .slice (.named pSib sib tT []))] true
+     [([], .named pCur ['t', 'g', 't'] tT []), ([], .basic ['e', 'r', 'r', 'o', 'r'])]]
+
+theorem typeRef_round_trip_partial :
+    (denoteL pCur (extractL ensureParamNames sampleIH sampleTypes).1.active
+      (extractL ensureParamNames sampleIH sampleTypes).2).map (SType.sameL (semL sampleTypes)) = some true ∧
+    (extractL ensureParamNames sampleIH sampleTypes).1.active.map (fun i => (i.alias, i.path)) =
+      [(sib, pSib), (['r', 'n'], pRen), (['d', 'e', 'e', 'p'], pDeep)] := by
+  decide
+
 end Gencommon
